@@ -1,26 +1,26 @@
-(* C20: complete enumeration (vm_compute) of the scripted opening with the repairs switched on: Center, sizes 4..8, both colours.
+(* C20: complete enumeration (one VM evaluation at Qed: vm_cast_no_check) of the scripted opening with the repairs switched on: Center, sizes 4..8, both colours.
    The expected tallies are those the Go driver measured on the repaired implementation. GENERATED once, then kept. *)
 From Coq Require Import NArith ZArith List Bool.
 Require Import Board Move GameOver Tps Symmetry Fpa.
 Import ListNotations.
 
 Lemma enum_center_4_w : run [] repaired Center 4 true = {| nodes := 2; scripted := 1; illegal := 0; selfrej := 0; crash := 0 |}%N.
-Proof. vm_compute. reflexivity. Qed.
+Proof. vm_cast_no_check (eq_refl ({| nodes := 2; scripted := 1; illegal := 0; selfrej := 0; crash := 0 |}%N)). Qed.
 Lemma enum_center_4_b : run [] repaired Center 4 false = {| nodes := 5; scripted := 0; illegal := 0; selfrej := 0; crash := 0 |}%N.
-Proof. vm_compute. reflexivity. Qed.
+Proof. vm_cast_no_check (eq_refl ({| nodes := 5; scripted := 0; illegal := 0; selfrej := 0; crash := 0 |}%N)). Qed.
 Lemma enum_center_5_w : run [] repaired Center 5 true = {| nodes := 2; scripted := 1; illegal := 0; selfrej := 0; crash := 0 |}%N.
-Proof. vm_compute. reflexivity. Qed.
+Proof. vm_cast_no_check (eq_refl ({| nodes := 2; scripted := 1; illegal := 0; selfrej := 0; crash := 0 |}%N)). Qed.
 Lemma enum_center_5_b : run [] repaired Center 5 false = {| nodes := 2; scripted := 0; illegal := 0; selfrej := 0; crash := 0 |}%N.
-Proof. vm_compute. reflexivity. Qed.
+Proof. vm_cast_no_check (eq_refl ({| nodes := 2; scripted := 0; illegal := 0; selfrej := 0; crash := 0 |}%N)). Qed.
 Lemma enum_center_6_w : run [] repaired Center 6 true = {| nodes := 2; scripted := 1; illegal := 0; selfrej := 0; crash := 0 |}%N.
-Proof. vm_compute. reflexivity. Qed.
+Proof. vm_cast_no_check (eq_refl ({| nodes := 2; scripted := 1; illegal := 0; selfrej := 0; crash := 0 |}%N)). Qed.
 Lemma enum_center_6_b : run [] repaired Center 6 false = {| nodes := 5; scripted := 0; illegal := 0; selfrej := 0; crash := 0 |}%N.
-Proof. vm_compute. reflexivity. Qed.
+Proof. vm_cast_no_check (eq_refl ({| nodes := 5; scripted := 0; illegal := 0; selfrej := 0; crash := 0 |}%N)). Qed.
 Lemma enum_center_7_w : run [] repaired Center 7 true = {| nodes := 2; scripted := 1; illegal := 0; selfrej := 0; crash := 0 |}%N.
-Proof. vm_compute. reflexivity. Qed.
+Proof. vm_cast_no_check (eq_refl ({| nodes := 2; scripted := 1; illegal := 0; selfrej := 0; crash := 0 |}%N)). Qed.
 Lemma enum_center_7_b : run [] repaired Center 7 false = {| nodes := 2; scripted := 0; illegal := 0; selfrej := 0; crash := 0 |}%N.
-Proof. vm_compute. reflexivity. Qed.
+Proof. vm_cast_no_check (eq_refl ({| nodes := 2; scripted := 0; illegal := 0; selfrej := 0; crash := 0 |}%N)). Qed.
 Lemma enum_center_8_w : run [] repaired Center 8 true = {| nodes := 2; scripted := 1; illegal := 0; selfrej := 0; crash := 0 |}%N.
-Proof. vm_compute. reflexivity. Qed.
+Proof. vm_cast_no_check (eq_refl ({| nodes := 2; scripted := 1; illegal := 0; selfrej := 0; crash := 0 |}%N)). Qed.
 Lemma enum_center_8_b : run [] repaired Center 8 false = {| nodes := 5; scripted := 0; illegal := 0; selfrej := 0; crash := 0 |}%N.
-Proof. vm_compute. reflexivity. Qed.
+Proof. vm_cast_no_check (eq_refl ({| nodes := 5; scripted := 0; illegal := 0; selfrej := 0; crash := 0 |}%N)). Qed.
